@@ -92,7 +92,7 @@ PROPS["C01"] = {
     ],
     "engines": [handlers("C06"), universe("C06")],
     "assumptions": ["global theorem is about the cut-down cluster model Core/Model.lean (fixed membership, no pre-vote, no leader-known refusal); its vote and AppendEntries handlers were compared with the real ones in the design round; the full handlers are tied by H2", SV_NOTE],
-    "level_note": "partial: the global theorem covers fixed membership; membership changes rest on OV.adjacent_config_majorities_intersect plus the unproved invariant that configurations in use in one term are equal or adjacent. The candidate's own tally (electSelf) is not in the stepped model: SV.election_safety_sv speaks about the grants the servers reported.",
+    "level_note": "partial: the global theorem (RP.election_safety) covers fixed membership and is about the cut-down cluster model; its RequestVote handler is the stepped one by SV.vote_refines_core (every failing vote write), its AppendEntries merge by SV.ae_refines_core (core fragment); membership changes rest on OV.adjacent_config_majorities_intersect plus SV.lead_one_uncommitted_config (a leader never holds two uncommitted configurations) - the composition into one global proof with membership changes is not done. Candidate loop (also with a failing vote write) and leader loop are in the stepped model.",
 }
 
 PROPS["C02"] = {
@@ -105,7 +105,7 @@ PROPS["C02"] = {
     ],
     "engines": [universe("C02"), handlers("C02", 3000, 60000)],
     "assumptions": ["global theorems are about the cut-down cluster model (fixed membership); tie of the follower side = H2 universe engine with ghost truth", SV_NOTE],
-    "level_note": "partial: leader-side FSM hand-off (dispatchLogs/processLogs with futures, batching FSM) is not yet in the stepped model.",
+    "level_note": "partial: follower side (handlers, restart) and leader side (commit branch, processLogs up to the last ready call) are in the stepped model; the FSM goroutine itself (batching, response pairing) is covered by the H3 monitors only; global theorems are about the cut-down cluster model, bridged to the stepped handlers by SV.vote_refines_core / SV.ae_refines_core.",
 }
 
 PROPS["C03"] = {
@@ -245,7 +245,7 @@ PROPS["C12"] = {
     ],
     "engines": [cluster("C12", 200, 5000), universe("C12", 3000, 60000)],
     "assumptions": [H3_NOTE, "the election-time bound is a statement about random timer draws and is measured (virtual time), not proved; convergence is checked 15 virtual seconds after the faults stop (replication back-off reaches 10.24 s)"],
-    "level_note": "partial: catch-up by AppendEntries is proved for the cut-down model; the snapshot branch and the election bound are covered by H3 only.",
+    "level_note": "partial: catch-up by AppendEntries is proved for the cut-down model (RP.catchup_terminates), whose merge is the stepped follower\'s by SV.ae_refines_core and whose requests are the stepped leader\'s by SV.replSetup_wellformed; the step-level progress lemmas are proved on the stepped routine; the snapshot branch is tied by the catch-up engine only; the election-time bound is measured, not proved.",
 }
 
 PROPS["C17"] = {
@@ -260,7 +260,7 @@ PROPS["C17"] = {
     ],
     "engines": [cluster("C17", 200, 5000)],
     "assumptions": [H3_NOTE, "a call counts as stranded when it has not resolved after 20 virtual seconds; NotifyCh/Observer consumers and the FSM are live in the harness"],
-    "level_note": "partial: the theorem covers Apply futures in the role loop; the other future kinds and the buffered queues around Shutdown (F5) are covered by the H3 monitor only.",
+    "level_note": "partial: the stepped leader loop answers every in-flight call and pending VerifyLeader on every way out of leadership (proved); membership calls waiting for the gate, leadership transfer, snapshot / restore futures and the buffered queues around Shutdown (F5) are covered by the H3 monitors only.",
 }
 
 PROPS["C18"] = {
@@ -273,7 +273,7 @@ PROPS["C18"] = {
     ],
     "engines": [cluster("C18", 200, 5000)],
     "assumptions": [H3_NOTE, "the NotifyCh consumer of the harness is always ready; Leader()/LeaderWithID faithfulness on followers is not yet monitored"],
-    "level_note": "partial: the `follower names only a real leader of its term` clause rests on election safety (C01) and is not monitored separately yet.",
+    "level_note": "partial: NotifyCh alternation is proved on the role-loop model and compared step by step in the leader engine; LeaderCh is monitored (H3); the follower clause is an all-input Spec clause (leaderIsOfCurrentTerm, staleRequestKeepsLeader) on the stepped handlers plus election safety (C01), not a theorem.",
 }
 
 PROPS["C15"] = {
@@ -319,7 +319,7 @@ PROPS["C09"] = {
     "engines": [cluster("C09", 120, 3000), scenario("verify", "C09", 100, 2500)],
     "assumptions": [H3_NOTE, "the verify engine runs the four litmus schedules only (leader with a slow clock; only non-voters reachable / a heartbeat answer held in the network across an election / an uncommitted demotion / an InstallSnapshot answer held across an election); monitor: a successful VerifyLeader on s in term T while another server had acted as leader of a higher term before the call began is a violation",
                     "the voters-only clause (quorum arithmetic) is covered by the monitor and the litmus, not by a theorem"],
-    "level_note": "partial: the theorem covers the freshness clause for the heartbeat routine; voter counting is covered by H3 only.",
+    "level_note": "partial: the freshness clause is proved for the heartbeat-routine model VL and stepped against the code in the leader engine (the requests a heartbeat carries are taken when it is sent); voter counting is compared step by step there (verifyFresh, diff) and monitored in H3, not proved.",
 }
 
 PROPS["C13"] = {
@@ -370,7 +370,7 @@ PROPS["C03"]["engines"].append(CATCHUP)
 PROPS["C05"]["assumptions"].append("catch-up engine here too: what the leader's replication routine enters into the commitment table for a follower (AppendEntries and InstallSnapshot answers) is compared with the model and judged against what that follower holds")
 PROPS["C12"]["assumptions"].append("catch-up engine: the leader's real replicateTo (non-pipelined) against a real follower's handlers, model (SV.replicateTo = leader-side loop composed with the handler model) compared request by request; the pipelined mode is exercised only by the cluster engine")
 
-def leader(pid, nq=3000, nt=30000):
+def leader(pid, nq=5000, nt=30000):
     return {"engine": "leader", "driver": "leader-" + pid, "bin": "h2.test", "quick": ["-n", str(nq)], "thorough": ["-n", str(nt)]}
 
 LEADER_NOTE = "leader engine: the real runLeader / leaderLoop on one server whose peers are played by the harness (every replication and heartbeat request parked in the transport, no virtual time passing), one loop iteration per stimulus, compared with SV.stepLeader observation by observation (durable writes, volatile state, FSM calls, resolved futures with index and response, commitment table, in-flight list, NotifyCh); the replication routines are the environment (their requests are judged against the leader's log, their acknowledgements are inputs); leadership transfer, user Restore and the lease timer are not stepped here"
